@@ -258,6 +258,32 @@ def run_C13(ctx, proof_ok):
     return a
 
 
+def run_C10(ctx, proof_ok):
+    import combc
+
+    E = epg()
+    r = lib.rng(10)
+    n1, d1, dist = combc.compare_combine(r, E, budget(ctx.tier, 400, 8000))
+    n2, d2 = combc.compare_nesting(r, E, budget(ctx.tier, 250, 5000))
+    ctx.violations.extend(d1 + d2)
+    ctx.violations.extend(combc.probe_F7(E))
+    return {"evaluations": n1 + n2, "distinct_nontrivial": dist["with_decl"] + n2,
+            "rule": "combine: random chains (2-4) of operators `@` accepts (E.., P.., R.., T.., Phi.., T mixed with E), parameters "
+                    "scalar or arrays over batch shapes (), (2,), (3,), (2,1), (1,3), (2,3), identity-named declarations first "
+                    "order / first+second order, left and right association, input state with or without foreign partials; "
+                    "(a@b)(sm) vs b(a(sm)) on states, order1, order2, shape, duration || nesting: the same operator objects "
+                    "flat, nested in lists and grouped with `*` (incl. right-nested groups): identical simulate() results and "
+                    "multi-operator duration / nshift / shape; non-trivial = chain with declarations / any nesting case",
+            "samples": [lib.jsonable(combc.describe(combc.gen_chain(lib.rng(1010))))],
+            "distribution": {"combine": dist, "combine_checks": n1, "nesting_checks": n2}}
+
+
+def replay_generic(ctx, data):
+    print("replay input:", json.dumps(data.get("input"))[:2000])
+    print("problems recorded:", data.get("problems"))
+    return 1
+
+
 def merge_results(a, b, rule):
     out = dict(a)
     out["evaluations"] = a["evaluations"] + b["evaluations"]
@@ -444,6 +470,8 @@ def replay_diff(ctx, data):
 # known findings: predicates keyed by finding id (the committed file lists which are active)
 
 KNOWN_PREDICATES = {
+    # F7: `@` with alias / coefficient declarations applies the coefficients twice
+    "F7": lambda v: v.get("kind") == "F7-probe",
     # F1: a plain (non-Diff) operator applied to a state matrix that carries partial derivatives
     "F1": lambda v: v.get("kind") == "F1-probe",
 }
@@ -554,6 +582,18 @@ PROPS["C13"] = {
     "partial": ["proved: no state beyond the cap and the exactness horizon 2n+1 for the 1-D model from the default initial state; "
                 "the n-D horizon, the pruning / partials-pruner / merging bounds are covered by the searches on the real code only; "
                 "tightness of the horizon (a difference at A = 2n+2) is exhibited numerically, not proved"],
+}
+
+PROPS["C10"] = {
+    "lean_modules": ["EpgVerif.Props.C10"],
+    "tie": [],
+    "audit": "EpgVerif/Audit/C10.lean",
+    "run": run_C10,
+    "replay": replay_generic,
+    "theorems_hint": ["flatten_spec", "multi_attrs_sums", "combine_apply", "combine_assoc", "combine_partials_first_order"],
+    "partial": ["theorems are about abstract affine operators over any ring (scalar arrays and 3x3 matrices are instances) and "
+                "about the generic bookkeeping run on operator arrays; the numpy plumbing (extend_operators, einsum, broadcast) is "
+                "tied by the combine correspondence on the real code; second-order tables of the composite are exercised, not proved"],
 }
 
 NOT_CLAIMED = {}
